@@ -39,9 +39,9 @@ CLAIMED = {
          "Theorems for every forest, grid size and integer score grid, per sample: the traced assignment is on the grid, feasible (clone >= sum of children, top level <= 1) and maximal over all feasible assignments; prevalences are non-negative. Tie: get_map_node_ccfs_and_clonal_prev_dicts on forests <= 6 nodes, 1-3 samples, integer-valued grids; indices compared exactly where the maximiser is unique, otherwise by score and feasibility.",
          "Integer-score model (the constant log prior is omitted); float ties and prevalence >= -1e-12 validated only; trees with at least one clone (the all-outlier tree is C12).",
          "DESIGN.md section 6 C10"),
- "C13": ("Coq proof (Reals) of the density algebra of the Escobar-West update + executable Qc parameter model + recording fakes for beta/bernoulli/gamma.rvs and exhaustive update_concentration_value runs",
-         "Theorems: the two-component Gamma mixture with the code's weight is proportional to x^(a+K-2)(x+n)exp(-x(b - log eta)); the joint has exactly the two conditionals the code samples; K and n exclude outliers; the Qc parameter model denotes the real-valued parameters. Tie: parameters passed to scipy's samplers for grids of (a,b,alpha,K,n,eta) incl. K = 0; update_concentration_value on every tree over <= 4 points.",
-         "Partial: invariance of a two-block Gibbs sweep on a continuous space and the normalisation integrals are not formalised (no measure theory installed); the Gamma function is a section premise (Gam(s+1) = s Gam(s), Gam > 0, witness given); stdlib real axioms + classic + functional extensionality.",
+ "C13": ("Coq proof (Reals) of the density algebra of the Escobar-West update and of two-block Gibbs invariance relative to abstract integration operators (linear, local, Fubini: visible premises) + executable Qc parameter model + recording fakes for beta/bernoulli/gamma.rvs and exhaustive update_concentration_value runs",
+         "Theorems: the two-component Gamma mixture with the code's weight is proportional to x^(a+K-2)(x+n)exp(-x(b - log eta)); the joint has exactly the two conditionals the code samples; K and n exclude outliers; the Qc parameter model denotes the real-valued parameters; C13_concentration_update_invariant: for any integration operators satisfying linearity, locality, Fubini, Beta mass one and non-zero mixture mass, posterior(alpha) x density of the code's two draws integrates to posterior(alpha'). Tie: parameters passed to scipy's samplers for grids of (a,b,alpha,K,n,eta) incl. K = 0; update_concentration_value on every tree over <= 4 points.",
+         "Partial: the invariance theorem is relative to abstract integration functionals - Tonelli and the Beta / Gamma normalisation integrals are visible premises, not discharged (no measure theory installed); update histories on one distribution object (nearly equal and tiny values) are exercised; the Gamma function is a section premise (Gam(s+1) = s Gam(s), Gam > 0, witness given); stdlib real axioms + classic + functional extensionality.",
          "DESIGN.md section 6 C13"),
  "C17": ("Coq proof of permutation invariance, kept-set characterisation under the two stated exclusions, numbering, defaults, reject and no-crash for an executable loader model + generated TSV/CSV tables loaded by the real load_data in several row orders, compared with each other, an independent oracle and the Coq model",
          "Theorems for every table: any permutation of the rows gives the same result; under the statement's exclusions a mutation is kept iff every sample has exactly one usable row; data points are numbered in sorted id order with rows in sorted sample order; defaults; major < minor rejected. Tie: generated tables with controlled defects, tab/comma separated, with/without cluster file, awkward identifiers.",
